@@ -154,3 +154,25 @@ Example ex_limited_run_held :
   | inr _ => False
   end.
 Proof. vm_compute. reflexivity. Qed.
+(* ---- to append to Props/C11.v: the handshake-to-message boundary (second quantifier of C11), proved in the auth
+   package (Proofs/AuthHandover.v) on top of Auth.Transport, Auth.Handover and the loader theorems chunking_general /
+   chunking_unconditional.  hs = a complete successful client handshake (the server model, fed hs in one piece, ends
+   Authenticated with nothing left over, so hs ends with the BEGIN line); evs = ANY sequence of read / write / dispatch
+   events, i.e. any cutting of hs ++ msgs into reads (inside BEGIN, right after it, inside the first message); once
+   hs ++ msgs has been consumed and the hand-over (recover_unused_bytes) has happened, the loader has received exactly
+   msgs -- no handshake byte, and no message byte was taken as an auth command -- and its outcome is the one-piece outcome. *)
+From DV Require Import Auth.Types Auth.Server Auth.Transport Auth.Handover Proofs.AuthBasics Proofs.AuthHandover.
+
+Theorem C11_handshake_boundary : forall te hs msgs a_hs evs,
+  run (t_env te) auth_init [Feed hs] = Some a_hs -> a_state (a_core a_hs) = Authenticated -> a_incoming a_hs = [] ->
+  let t := fst (xrun te xinit evs) in
+  let ld := snd (xrun te xinit evs) in
+  snd (trun te transport_init evs) = hs ++ msgs -> tr_recovered t = true ->
+  tr_authenticated t = true /\
+  a_core (tr_auth t) = a_core a_hs /\ get_identity (tr_auth t) = get_identity a_hs /\
+  admission te (get_identity a_hs) = true /\
+  (exists ls aevs rs, run (t_env te) auth_init aevs = Some (tr_auth t) /\ reach (t_env te) (fed aevs) ls rs (tr_auth t) /\ join_lines ls = hs) /\
+  tr_loader t = msgs /\
+  LoaderProofs.outcome ld = LoaderProofs.outcome (feed loader_new msgs 0).
+Proof. exact handshake_boundary. Qed.
+Print Assumptions C11_handshake_boundary.
